@@ -15,7 +15,7 @@ import tempfile
 VERIF = os.path.dirname(os.path.dirname(os.path.abspath(__file__)))
 REPO = os.environ.get("HMCLAB_REPO", "/repo")
 COQ = os.path.join(VERIF, "coq")
-GEN = os.path.join(COQ, "gen")
+GEN = os.environ.get("HMCLAB_GEN") or os.path.join(COQ, "gen")      # (override: parallel runs against scratch copies of the repository)
 GUARD = "HMCLAB_VERIF"
 
 
